@@ -175,6 +175,11 @@ def c20(c):
     c.small("MC_Parallel", cfg="MC_Parallel_quick.cfg" if quick else "MC_Parallel.cfg")
     c.small("MC_Execute", cfg="MC_Execute.cfg")
     c.small("MC_Execute", cfg="MC_Execute_early.cfg", expect_violation=True)
+    # for ALL n >= 0, m >= 1: the loop of Execute with an inductive invariant, discharged symbolically
+    c.apalache("ExecuteInd", [("Init => IndInv", ["--cinit=CInit", "--init=Init", "--inv=IndInv", "--length=0"], False),
+                              ("IndInv /\\ Next => IndInv'", ["--cinit=CInit", "--init=IndInit", "--inv=IndInv", "--length=1"], False),
+                              ("IndInv => Safe", ["--cinit=CInit", "--init=IndInit", "--inv=Safe", "--length=0"], False),
+                              ("mutant (remainder dropped) refuted", ["--cinit=CInitMut", "--init=Init", "--inv=Safe", "--length=4"], True)])
     bands = [(0, 300, 64)] if quick else [(lo, min(lo + 255, 2048), 300) for lo in range(0, 2049, 256)]
     exe = vlib.build_harness()
     for (lo, hi, mhi) in bands:
